@@ -35,4 +35,42 @@ def driverLine (inp obs : List String) : Bool × Bool × String × String :=
     | _ => (false, false, "C19/unparsable-observation", shown)
   | _ => (false, false, "bad-line", "")
 
+/-- Stream `toc`: the timeout as the client builder installs it. However the duration was handed to the builder, the
+    request as a whole - every redirect hop included - is one inner future for `TimeoutFuture`: ready once the last
+    response is there, i.e. after the sum of the hops' delays (the first hop's alone when redirects are not followed).
+    `toc <timeout|-> <via> <redirects> <pool> ; <delay>*`   obs: `<ok-STATUS|timeout|err|hang> <ms> <probe>` -/
+def tocLine (inp obs : List String) : Bool × Bool × String × String :=
+  match inp with
+  | tmo :: _via :: redirects :: _pool :: ";" :: ds =>
+    let delays := ds.map natTok
+    let follow := redirects != "0"
+    let total := if follow then delays.sum else delays.headD 0
+    let status := if follow || delays.length ≤ 1 then 200 else 302
+    let i : Inner := { at_ := some total, ok := true }
+    -- the executor polls when something it waits for is ready: when the response is there, or at the deadline
+    let m : Option (Outcome × Nat) := match tmo.toNat? with
+      | some d => (runPolls d i [min total d] 0).1
+      | none => some (.inner true, total)
+    let probe := if tmo == "0" then "timeout" else "ok"
+    let shown := match m with
+      | some (.inner _, t) => s!"ok-{status} {t} {probe}"
+      | some (.timeout, t) => s!"timeout {t} {probe}"
+      | none => "pending"
+    match obs, m with
+    | [o, el, pr], some (mo, mt) =>
+      let e := natTok el
+      let near := e ≤ mt + 2 && mt ≤ e + 2
+      let cls : List String :=
+        (if o == "hang" then ["C19/never-resolved"] else []) ++
+        (match tmo.toNat? with | some d => if o != "hang" && e > d + 2 then ["C19/resolved-late"] else [] | none => []) ++
+        (if o == "timeout" && mo != .timeout && !(decide (e > mt + 2)) then ["C19/inner-result-replaced-by-timeout"] else []) ++
+        (if o == "timeout" && mo == .timeout && e + 2 < mt then ["C19/timeout-before-deadline"] else []) ++
+        (if o.startsWith "ok-" && o != s!"ok-{status}" then ["C19/inner-result-altered"] else []) ++
+        (if o == "err" then ["C19/inner-result-altered"] else []) ++
+        (if pr != probe && (pr == "hang" || pr == "err" || (pr == "timeout" && probe == "ok")) then ["C19/origin-not-served-after-timeout"] else [])
+      let agree := (match mo with | .inner _ => o == s!"ok-{status}" | .timeout => o == "timeout") && near && pr == probe
+      (agree, cls.isEmpty, if cls.isEmpty then "-" else ",".intercalate cls, shown)
+    | _, _ => (false, false, "C19/unparsable-observation", shown)
+  | _ => (false, false, "bad-line", "")
+
 end Hd.Timeout
